@@ -1,7 +1,7 @@
 (* C01 -- Every declared Java type and method appears exactly once in the code model.
    Only statements live here; every proof is [exact <lemma of Proofs/JavaFullProofs.v>]. *)
 From Coq Require Import String List Bool Arith.
-From Coca Require Import Lib.GoMap Lib.Str Model.CodeModel Model.JavaFull Model.JavaSelect Proofs.JavaFullProofs Proofs.JavaFunctionsProofs.
+From Coca Require Import Lib.GoMap Lib.Str Model.CodeModel Model.JavaFull Model.JavaSelect Proofs.JavaFullProofs Proofs.JavaFunctionsProofs Model.JavaIdent Proofs.JavaIdentProofs.
 Import ListNotations.
 Open Scope string_scope.
 
@@ -85,3 +85,17 @@ Example C01_function_hypotheses_hold :
   fun_keys (s_pkg ts) (s_clz ts) (u_members ex_unit) <> [].
 Proof. exact ex_unit_function_hypotheses. Qed.
 Print Assumptions C01_function_hypotheses_hold.
+
+(* 7. the identifier pass alike: for any unit, whatever the process analysed before, exactly one entry with the
+      unit's name, kind and package, and one function entry per declared constructor / method / interface
+      method IN SOURCE ORDER with its name, return type ("" for a constructor) and modifiers *)
+Theorem C01_ident_pass_exact : forall st u,
+    u_name u <> "" ->
+    exists n,
+      i_nodes (ident_unit (new_ident_listener st) u) = [n] /\
+      d_node n = u_name u /\
+      d_type n = (if String.eqb (u_kind u) "class" then "Class" else "Interface") /\
+      d_pkg n = (if u_has_pkg u then u_pkg u else "") /\
+      map ident_sig (d_funcs n) = map expected_ident_sig (filter is_fun_member (u_members u)).
+Proof. exact ident_unit_exact. Qed.
+Print Assumptions C01_ident_pass_exact.
